@@ -3,6 +3,7 @@ package checks
 import (
 	"fmt"
 	"strings"
+	"verif/h/refsrv"
 
 	tq "github.com/facebookincubator/tacquito"
 	"verif/h/gen"
@@ -358,4 +359,123 @@ func runC08(b *mon.B) {
 	}
 	b.Count("distinct_histories", len(c.seen))
 	_ = simnet.KClose
+	c08RefServer(b, r.Fork(0xC08A))
+}
+
+// finalStatus reports whether a reply of the reference server ends its session at the protocol
+// level: every authorization and accounting reply does, an authentication reply does unless it asks
+// for more input (GETDATA, GETUSER, GETPASS).
+func finalStatus(rp reply) bool {
+	if rp.Header.Type != tAuthen {
+		return true
+	}
+	switch rp.status() {
+	case 3, 4, 5:
+		return false
+	}
+	return true
+}
+
+// c08RefServer applies the last sentence of the property to the reference server's own handlers:
+// a reply that ends the session (final status) registers no continuation and nothing is retained -
+// a later packet with that session id starts from the initial handler; a reply that asks for more
+// input registers one, and the follow-up packet goes to it.
+func c08RefServer(b *mon.B, r *gen.R) {
+	sc := richConfig(r, 1)
+	ref, err := refsrv.Start(sc.Cfg, refsrv.Options{Keys: sc.Keys, ViaYAML: b.Index%2 == 0})
+	if err != nil {
+		b.Inconclusive("reference configuration did not load: %v", err)
+		return
+	}
+	defer ref.Close()
+	ref.Net.SetKeepLog(false)
+	key := []byte(sc.Scopes[0].Key)
+	caseNo := 1 << 24
+	for k := 0; k < b.N(60, 1500); k++ {
+		caseNo++
+		rec := pickRecipe(r, sc)
+		after := r.PickS("start-again", "start-again", "follow-up", "other-type")
+		if !b.Want(caseNo) {
+			continue
+		}
+		b.Eval(1)
+		rc := newRefConn(ref, k%60000+1, key)
+		sid := r.U32()
+		seq := 1
+		ended := false // the session got a final reply
+		lastLabel := ""
+		wit := func() map[string]interface{} {
+			return map[string]interface{}{"recipe": rec.Name, "user_kind": userKind(sc, rec.User), "last_request": lastLabel, "then": after}
+		}
+		for _, p := range rec.Pkts {
+			if p.SeqOverride != 0 {
+				break
+			}
+			h := rfc8907.Header{Major: 0xc, Minor: p.Minor, Type: p.Type, Seq: seq, Flags: p.Flags, Session: sid}
+			res := rc.send(h, p.Body, p.WellFormed)
+			lastLabel = p.Label
+			if res.Err != nil || res.State.Closed || len(res.Invs) != 1 || len(res.Replies) != 1 {
+				break // one request one reply is C07's subject
+			}
+			iv, rp := res.Invs[0], res.Replies[0]
+			fin := finalStatus(rp)
+			b.Class("refserver/%s/final=%v/next=%v", pathOf(p.Label), fin, iv.NextSet)
+			if fin && iv.NextSet {
+				b.Violate(caseNo, "C08/refserver/continuation-kept-with-final-reply/"+pathOf(p.Label), fmt.Sprintf("%s answered with final status %d but a continuation stays registered for the session", p.Label, rp.status()), wit())
+			}
+			if !fin && !iv.NextSet {
+				b.Violate(caseNo, "C08/refserver/no-continuation-after-prompt/"+pathOf(p.Label), fmt.Sprintf("%s answered with status %d (more input wanted) but no continuation is registered", p.Label, rp.status()), wit())
+			}
+			seq += 2
+			if fin {
+				ended = true
+				break
+			}
+		}
+		if ended && !rc.c.Closed() {
+			// nothing of the finished session is retained: whatever comes next under that id is
+			// handled by the initial handler of the scope
+			var h rfc8907.Header
+			var body []byte
+			switch after {
+			case "start-again":
+				h = rfc8907.Header{Major: 0xc, Type: tAuthen, Seq: 1, Session: sid}
+				body = bAuthenStart(1, 1, 1, 1, "", "tty0", "192.0.2.1", "")
+			case "follow-up":
+				h = rfc8907.Header{Major: 0xc, Type: tAuthen, Seq: seq, Session: sid}
+				body = bAuthenContinue(0, "whatever", "")
+			case "other-type":
+				h = rfc8907.Header{Major: 0xc, Type: tAuthor, Seq: 1, Session: sid}
+				body = bAuthorRequest(6, 1, 1, 1, "alice", "p", "r", "service=shell", "cmd=show", "cmd-arg=version")
+			}
+			if h.Seq <= 255 {
+				before := ref.Tap.Count()
+				rc.c.Feed(pktSpec{H: h, Clear: body}.wire(key))
+				st, err := rc.c.WaitQuiescent()
+				raws, _ := rc.c.TakePackets()
+				var invs []*tap.Inv
+				for _, iv := range ref.Tap.Since(before) {
+					if iv.Conn == rc.c.ID {
+						invs = append(invs, iv)
+					}
+				}
+				b.Class("refserver/after-final/%s", after)
+				switch {
+				case err != nil:
+					b.Inconclusive("reference-server pass: %v", err)
+				case len(invs) == 0:
+					b.Violate(caseNo, "C08/refserver/finished-session-retained/"+after, fmt.Sprintf("after the final reply of %s a packet with the same session id (seq %d) was not dispatched at all (closed=%v, %d packets written): the finished session is still on record", lastLabel, h.Seq, st.Closed, len(raws)), wit())
+				case !strings.HasPrefix(invs[0].HandlerID, "start#"):
+					b.Violate(caseNo, "C08/refserver/finished-session-continuation-used/"+after, fmt.Sprintf("after the final reply of %s a packet with the same session id was dispatched to %s instead of the initial handler", lastLabel, invs[0].HandlerID), wit())
+				default:
+					b.Count("finished_sessions_restarted_from_initial_handler", 1)
+				}
+			}
+		}
+		if !rc.c.Closed() {
+			rc.c.EOF()
+		}
+		ref.Net.Forget(rc.c)
+		ref.Sink.Take()
+	}
 }
